@@ -1,6 +1,6 @@
 (* C04 -- free-form layout does not change the parse (reader part).  Theorems only. *)
 From Coq Require Import List Bool Arith Ascii String NArith.
-From FV Require Import SplitLine Text Reader ReaderLaws ReaderJoin.
+From FV Require Import SplitLine Text Reader ReaderLaws ReaderJoin ReaderItem.
 Import ListNotations.
 
 (* Continuation is lossless.  A statement cut into n+2 pieces at ARBITRARY character positions
@@ -19,6 +19,39 @@ Theorem C04_continuation_joins_exactly_partial :
 Proof. exact join_pieces. Qed.
 Goal True. idtac "ASSUMPTIONS-OF C04_continuation_joins_exactly_partial". Abort.
 Print Assumptions C04_continuation_joins_exactly_partial.
+
+(* The same at the reader's public interface: next() on a source that starts with a statement written
+   over n+2 physical lines (first line: any indentation, optional label and construct name as
+   extract_label / extract_construct_name find them; every line cut at an arbitrary position) returns
+   ONE line item: text = the pieces joined and stripped, the label and name of the first line, span =
+   exactly the lines of the statement; the reader is left at the line after it.  (No ';' in the text:
+   then the item is not split.) *)
+Theorem C04_next_delivers_the_joined_statement_partial :
+  forall ign line lab l1 nm p1 ms bn pn src lc,
+    stripped line -> line <> [] -> starts_with ["#"%char] (lstrip line) = false ->
+    extract_label line = (lab, l1) -> extract_construct_name l1 = (nm, p1 ++ ["&"%char]) ->
+    plain p1 -> mids_ok ms -> blanks bn -> plain pn -> pn <> [] -> negb (is_blank pn) = true ->
+    stripped (last_line bn pn) ->
+    strip (p1 ++ List.concat (map snd ms) ++ pn) <> [] ->
+    mem_char ";"%char (strip (p1 ++ List.concat (map snd ms) ++ pn)) = false ->
+    next_item (st ign (line :: mids ms ++ last_line bn pn :: src) lc [])
+    = (Some (RLine (strip (p1 ++ List.concat (map snd ms) ++ pn)) lab nm (S lc) (S (S lc) + List.length ms)),
+       st ign src (S (S lc) + List.length ms) []).
+Proof. exact next_item_of_continued_statement. Qed.
+Goal True. idtac "ASSUMPTIONS-OF C04_next_delivers_the_joined_statement_partial". Abort.
+Print Assumptions C04_next_delivers_the_joined_statement_partial.
+
+(* its hypotheses are met by a labelled, named statement in three pieces *)
+Example C04_example_next :
+  let line := list_ascii_of_string "  10 lp: call sub(al&" in
+  let src := [line; list_ascii_of_string "   &pha, be&"; list_ascii_of_string "&ta)"; list_ascii_of_string "x = 1"] in
+  extract_label line = (Some 10%N, list_ascii_of_string "lp: call sub(al&") /\
+  extract_construct_name (list_ascii_of_string "lp: call sub(al&") = (Some (list_ascii_of_string "lp"), list_ascii_of_string "call sub(al&") /\
+  fst (next_item (st false src 0 []))
+  = Some (RLine (list_ascii_of_string "call sub(alpha, beta)") (Some 10%N) (Some (list_ascii_of_string "lp")) 1 3).
+Proof. vm_compute. repeat split; reflexivity. Qed.
+Goal True. idtac "ASSUMPTIONS-OF C04_example_next". Abort.
+Print Assumptions C04_example_next.
 
 (* Comment lines and blank lines between continuation lines are transparent: neither the text
    joined so far nor the open-quote state (ANY state q, also inside a character literal) nor the
